@@ -63,6 +63,11 @@ theorem fits_gen (hT : TableOK L C.bp) (k m : Nat) (hk : 0 < k)
     obtain ⟨hwe, _, hp⟩ := hwp
     simp only [S.lvl] at hl
     exact ihe hwe (by rw [lvl_primary e hp]; exact hl)
+  | slice e a b c ihe _ _ _ =>
+    intro hwp hl
+    obtain ⟨hwe, hp, _⟩ := hwp
+    simp only [S.lvl] at hl
+    exact ihe hwe (by rw [lvl_primary e hp]; exact hl)
   | filterA e n args ihe iha =>
     intro hwp hl
     obtain ⟨hwe, hlv, _⟩ := hwp
@@ -79,7 +84,7 @@ theorem fits_gen (hT : TableOK L C.bp) (k m : Nat) (hk : 0 < k)
 
 /-- right spine: the token `t` is not captured by any construct of level at least `k` -/
 theorem follow_gen (hT : TableOK L C.bp) (k : Nat) (hk : 0 < k) (t : Tok)
-    (hb : ∀ o, k ≤ L.bin o → stopsTok C (C.bp.binary o).2 (some t))
+    (hb : ∀ o, o ≠ .Is → o ≠ .Pipe → k ≤ L.bin o → stopsTok C (C.bp.binary o).2 (some t))
     (hu : ∀ u, k ≤ L.unary u → stopsTok C (C.bp.unary u) (some t))
     (hc : ¬ chainTok (some t)) (hp : t ≠ .leftParen) (s : S) :
     s.DocWP L → k ≤ s.lvl L → follow C s (some t) := by
@@ -87,16 +92,16 @@ theorem follow_gen (hT : TableOK L C.bp) (k : Nat) (hk : 0 < k) (t : Tok)
   | var n => intro _ _; exact hc
   | binary op l r ihl ihr =>
     intro hwp hl
-    obtain ⟨_, _, _, hwr, hlv, _⟩ := hwp
+    obtain ⟨hIs, hPipe, _, hwr, hlv, _⟩ := hwp
     simp only [S.lvl] at hl
-    refine ⟨hb op hl, ihr hwr ?_⟩
+    refine ⟨hb op hIs hPipe hl, ihr hwr ?_⟩
     split at hlv <;> omega
   | notIn l r ihl ihr =>
     intro hwp hl
     obtain ⟨_, hwr, _, hlv⟩ := hwp
     simp only [S.lvl] at hl
     have := hT.notInRow
-    exact ⟨hb .In (by omega), ihr hwr (by omega)⟩
+    exact ⟨hb .In (by decide) (by decide) (by omega), ihr hwr (by omega)⟩
   | unary u e ih =>
     intro hwp hl
     obtain ⟨hwe, hlv, _, _⟩ := hwp
@@ -110,6 +115,7 @@ theorem follow_gen (hT : TableOK L C.bp) (k : Nat) (hk : 0 < k) (t : Tok)
   | test e n g ih => intro _ _; simpa [follow] using hp
   | attr e n o ih => intro _ _; exact hc
   | sub e i o ihe ihi => intro _ _; exact hc
+  | subSlice e a b c o _ _ _ _ => intro _ _; exact hc
   | _ => intros; trivial
 
 theorem follow_none (s : S) : follow C s none := by
@@ -123,6 +129,7 @@ theorem follow_none (s : S) : follow C s none := by
   | test e n g ih => simp [follow]
   | attr e n o ih => simp [follow, chainTok]
   | sub e i o ihe ihi => simp [follow, chainTok]
+  | subSlice e a b c o _ _ _ _ => simp [follow, chainTok]
   | _ => trivial
 
 theorem not_chainTok_opTok (b : BinaryOperator) : ¬ chainTok (some (opTok b)) := by
@@ -138,9 +145,9 @@ theorem follow_op (hT : TableOK L C.bp) (b : BinaryOperator) (s : S) (hwp : s.Do
     follow C s (some (opTok b)) := by
   refine follow_gen hT _ ?_ (opTok b) ?_ ?_ (not_chainTok_opTok b) (opTok_ne_leftParen b) s hwp hl
   · have := hT.binPos b; split <;> omega
-  · intro o ho
+  · intro o hIs hPipe ho
     rw [stopsTok_opTok]
-    have hin := hT.inside o b
+    have hin := hT.inside o b hIs hPipe
     have hrow := hT.rowAssoc o b
     apply Nat.lt_of_not_le
     intro hcon
@@ -179,22 +186,24 @@ theorem follow_not_in (hT : TableOK L C.bp) (s : S) (hwp : s.DocWP L) (hl : L.no
   | test e n g ih => simp [follow]
   | attr e n o ih => simp [follow, chainTok]
   | sub e i o ihe ihi => simp [follow, chainTok]
+  | subSlice e a b c o _ _ _ _ => simp [follow, chainTok]
   | _ => trivial
 
 theorem follow_if (hT : TableOK L C.bp) (s : S) (hwp : s.DocWP L) (hl : 1 ≤ s.lvl L) :
     follow C s (some (.ident "if")) := by
   refine follow_gen hT 1 (by omega) _ ?_ ?_ (by simp [chainTok]) (by simp) s hwp hl
-  · intro o _; rw [stopsTok_if]; exact (hT.ternaryLowest o).2
+  · intro o h1 h2 _; rw [stopsTok_if]; exact hT.ternaryLowestR o h1 h2
   · intro u _; rw [stopsTok_if]; exact hT.ternaryBelowUnary u
 
 /-- the operand of `b`'s right side: levels admitted there are accepted at `b`'s right power -/
-theorem fits_right (hT : TableOK L C.bp) (b : BinaryOperator) (s : S) (hwp : s.DocWP L)
+theorem fits_right (hT : TableOK L C.bp) (b : BinaryOperator) (hIs : b ≠ .Is) (hPipe : b ≠ .Pipe)
+    (s : S) (hwp : s.DocWP L)
     (hl : (if rightAssoc b then L.bin b else L.bin b + 1) ≤ s.lvl L) :
     fitsLeft C s (C.bp.binary b).2 := by
   refine fits_gen hT _ _ ?_ ?_ s hwp hl
   · have := hT.binPos b; split <;> omega
   · intro o ho
-    have hin := hT.inside b o
+    have hin := hT.inside b o hIs hPipe
     have : docInside L b o = true := by
       simp only [docInside, Bool.or_eq_true, decide_eq_true_eq, Bool.and_eq_true]
       split at ho
@@ -242,7 +251,8 @@ theorem wp_of_doc_both (hT : TableOK L C.bp) (s : S) :
     have ihr := ihr.1
     intro h
     obtain ⟨hIs, hPipe, hwl, hwr, hlv, hcc⟩ := h
-    refine ⟨hIs, hPipe, ihl hwl, ihr hwr, follow_op hT op l hwl ?_, fits_right hT op r hwr ?_, hcc⟩
+    refine ⟨hIs, hPipe, ihl hwl, ihr hwr, follow_op hT op l hwl ?_, fits_right hT op hIs hPipe r hwr ?_,
+      hcc⟩
     · split at hlv <;> simp_all
     · split at hlv <;> simp_all
   | notIn l r ihl ihr =>
@@ -254,7 +264,7 @@ theorem wp_of_doc_both (hT : TableOK L C.bp) (s : S) :
     have hrow := hT.notInRow
     have h0 : rightAssoc .In = false := by decide
     exact ⟨ihl hwl, ihr hwr, follow_not_in hT l hwl hl,
-      fits_right hT .In r hwr (by simp [h0]; omega)⟩
+      fits_right hT .In (by decide) (by decide) r hwr (by simp [h0]; omega)⟩
   | ternary c t f ihc iht ihf =>
     refine ⟨?_, fun h => by simp [S.DocWPArgs] at h, fun h => by simp [S.DocWPItems] at h, fun h => by simp [S.DocWPEntries] at h⟩
     have ihc := ihc.1
@@ -327,27 +337,71 @@ theorem wp_of_doc_both (hT : TableOK L C.bp) (s : S) :
     refine ⟨?_, fun h => by simp [S.DocWPArgs] at h, fun h => by simp [S.DocWPItems] at h,
       fun h => by simp [S.DocWPEntries] at h⟩
     intro h
-    exact ih.2.2.2 h
+    exact ⟨ih.2.2.2 h.1, h.2⟩
+  | slice e a b c ihe iha ihb ihc =>
+    refine ⟨?_, fun h => by simp [S.DocWPArgs] at h, fun h => by simp [S.DocWPItems] at h,
+      fun h => by simp [S.DocWPEntries] at h⟩
+    intro h
+    obtain ⟨hwe, hp, ha, hb, hc⟩ := h
+    refine ⟨ihe.1 hwe, ?_, ?_, ?_, ?_⟩
+    · cases e <;> simp_all [S.primary, follow]
+    · cases hx : a.isAbsent <;> simp_all
+    · cases hx : b.isAbsent <;> simp_all
+    · cases hx : c.isAbsent <;> simp_all
+  | subSlice e a b c o ihe iha ihb ihc =>
+    refine ⟨?_, fun h => by simp [S.DocWPArgs] at h, fun h => by simp [S.DocWPItems] at h,
+      fun h => by simp [S.DocWPEntries] at h⟩
+    intro h
+    obtain ⟨hce, hwe, ha, hb, hc⟩ := h
+    refine ⟨hce, ihe.1 hwe, ?_, ?_, ?_⟩
+    · cases hx : a.isAbsent <;> simp_all
+    · cases hx : b.isAbsent <;> simp_all
+    · cases hx : c.isAbsent <;> simp_all
+  | absent => exact ⟨fun h => by simp [S.DocWP] at h, fun h => by simp [S.DocWPArgs] at h,
+      fun h => by simp [S.DocWPItems] at h, fun h => by simp [S.DocWPEntries] at h⟩
+  | argEnd => exact ⟨fun h => by simp [S.DocWP] at h, fun _ => trivial,
+      fun h => by simp [S.DocWPItems] at h, fun h => by simp [S.DocWPEntries] at h⟩
+  | itemEnd => exact ⟨fun h => by simp [S.DocWP] at h, fun h => by simp [S.DocWPArgs] at h,
+      fun _ => trivial, fun h => by simp [S.DocWPEntries] at h⟩
+  | entryEnd => exact ⟨fun h => by simp [S.DocWP] at h, fun h => by simp [S.DocWPArgs] at h,
+      fun h => by simp [S.DocWPItems] at h, fun _ => trivial⟩
+  | comp e key value target cond ihe iht ihc =>
+    refine ⟨?_, fun h => by simp [S.DocWPArgs] at h, fun h => by simp [S.DocWPItems] at h,
+      fun h => by simp [S.DocWPEntries] at h⟩
+    intro h
+    obtain ⟨hwe, hval, hkey, hwt, hlt, hcond⟩ := h
+    have hm : ∀ o, 1 ≤ L.bin o → ¬ (C.bp.binary o).1 < C.bp.ternary + 1 := by
+      intro o _
+      have := hT.ternaryLowest o
+      omega
+    refine ⟨ihe.1 hwe, hval, hkey, iht.1 hwt, fits_gen hT 1 _ (by omega) hm target hwt hlt, ?_, ?_⟩
+    · cases cond.isAbsent
+      · exact follow_if hT target hwt hlt
+      · exact follow_closer _ classify_rightBracket (by simp [chainTok]) (by simp) target
+    · cases hca : cond.isAbsent
+      · simp only [hca, Bool.false_eq_true, if_false] at hcond ⊢
+        exact ⟨ihc.1 hcond.1, fits_gen hT 1 _ (by omega) hm cond hcond.1 hcond.2⟩
+      · simp
   | arr items ih =>
     refine ⟨?_, fun h => by simp [S.DocWPArgs] at h, fun h => by simp [S.DocWPItems] at h, fun h => by simp [S.DocWPEntries] at h⟩
     intro h
-    exact ih.2.2.1 h
+    exact ⟨ih.2.2.1 h.1, h.2⟩
   | call n args ih =>
     refine ⟨?_, fun h => by simp [S.DocWPArgs] at h, fun h => by simp [S.DocWPItems] at h, fun h => by simp [S.DocWPEntries] at h⟩
     intro h
-    exact ⟨h.1, ih.2.1 h.2⟩
+    exact ⟨h.1, ih.2.1 h.2.1, h.2.2⟩
   | filterA e n args ihe iha =>
     refine ⟨?_, fun h => by simp [S.DocWPArgs] at h, fun h => by simp [S.DocWPItems] at h, fun h => by simp [S.DocWPEntries] at h⟩
     intro h
-    obtain ⟨hwe, hl, hwa⟩ := h
+    obtain ⟨hwe, hl, hwa, hend⟩ := h
     have h0 : rightAssoc .Pipe = false := by decide
-    exact ⟨ihe.1 hwe, follow_op hT .Pipe e hwe (by simp [h0]; omega), iha.2.1 hwa⟩
+    exact ⟨ihe.1 hwe, follow_op hT .Pipe e hwe (by simp [h0]; omega), iha.2.1 hwa, hend⟩
   | testA e n g args ihe iha =>
     refine ⟨?_, fun h => by simp [S.DocWPArgs] at h, fun h => by simp [S.DocWPItems] at h, fun h => by simp [S.DocWPEntries] at h⟩
     intro h
-    obtain ⟨hwe, hl, hn, hwa⟩ := h
+    obtain ⟨hwe, hl, hn, hwa, hend⟩ := h
     have h0 : rightAssoc .Is = false := by decide
-    exact ⟨ihe.1 hwe, follow_op hT .Is e hwe (by simp [h0]; omega), hn, iha.2.1 hwa⟩
+    exact ⟨ihe.1 hwe, follow_op hT .Is e hwe (by simp [h0]; omega), hn, iha.2.1 hwa, hend⟩
 
 theorem wp_of_doc (hT : TableOK L C.bp) (s : S) : s.DocWP L → WP C s :=
   (wp_of_doc_both hT s).1
